@@ -118,6 +118,8 @@ impl Inner {
                 .entry(labels)
                 .or_insert_with(|| self.distribution_builder.get_distribution(name.as_str()));
 
+            #[cfg(metrics_verif)]
+            metrics::verif::note("prom.drain.key", key.name());
             histogram.get_inner().clear_with(|samples| entry.record_samples(samples));
         }
     }
